@@ -283,6 +283,19 @@ def run(ctx):
             chain.append((c, k, f"{shown_of(c)} x {br}:{shown_of(k)}", shown_of(c), shown_of(k)))
         decls.append({"default": "en", "locales": ["en"], "all_locales": ["en"], "namespaces": None, "inherits": {},
                       "files": {(None, "en"): proj.O(pairs)}, "extra_cfg": False, "meta": {}, "decl": {"refs": refs, "chain": chain}})
+    # counts written as *negative integer numbers* in float ranges (the integer callback of the file reader feeds a float range), never shadowed
+    for ty in ("f32", "f64"):
+        items = [ty, proj.A(["B0:{{ count }}", proj.num(-1)]), proj.O([("count", proj.num(-10)), ("value", "B1:{{ count }}")]),
+                 proj.A(["B2:{{ count }}", proj.num(-3), "7.5"]), proj.O([("count", proj.A([proj.num(-20), "-30.5"])), ("value", "B3:{{ count }}")]),
+                 proj.A(["FB:{{ count }}"])]
+        pairs, refs = [("r", proj.A(items))], {}
+        for lit, shown, exp in (("-1.0", "-1", "B0"), ("-10.0", "-10", "B1"), ("-3.0", "-3", "B2"), ("7.5", "7.5", "B2"), ("-20.0", "-20", "B3"), ("-30.5", "-30.5", "B3"),
+                                ("0.0", "0", "FB"), ("1.0", "1", "FB"), ("10.0", "10", "FB"), ("-2.0", "-2", "FB")):
+            key = "c_" + lit.replace("-", "m").replace(".", "_")
+            pairs.append((key, f"$t(r, {{\"count\": {lit}}})"))
+            refs[key] = (Fraction(lit), f"{exp}:{shown}")
+        decls.append({"default": "en", "locales": ["en"], "all_locales": ["en"], "namespaces": None, "inherits": {},
+                      "files": {(None, "en"): proj.O(pairs)}, "extra_cfg": False, "meta": {}, "decl": {"refs": refs}})
     generic_pipeline_check(ctx, [], decls, decl_oracle, "C04-declarations")
     # where a fallback may stand: alone, in the last branch only — also when it is one of several alternatives of a count list
     fb = []
@@ -299,7 +312,11 @@ def run(ctx):
                 (False, [proj.A(["a", one]), proj.A(["b", two, "_"])]),
                 (False, [proj.A(["a", one]), proj.A(["b", "_"])]),
                 (False, [proj.A(["a", one]), proj.O([("count", proj.A([two, ".."])), ("value", "b")])]),
-                (False, [proj.A(["a", "1 | 2"]), proj.A(["b"])])):
+                (False, [proj.A(["a", "1 | 2"]), proj.A(["b"])]),
+                # the implicit fallback in the `{count, value}` syntax: a last branch without `count`
+                (False, [proj.A(["a", one]), proj.O([("value", "b")])]),
+                (False, [proj.O([("count", one), ("value", "a")]), proj.O([("count", two), ("value", "b")]), proj.O([("value", "c {{ count }}")])]),
+                (True, [proj.O([("value", "a")]), proj.O([("count", two), ("value", "b")])])):
             fb.append({"default": "en", "locales": ["en"], "all_locales": ["en"], "namespaces": None, "inherits": {},
                        "files": {(None, "en"): proj.O([("r", proj.A(head + items))])}, "extra_cfg": False, "meta": {}, "fallback_misplaced": bad})
 
@@ -315,7 +332,7 @@ def run(ctx):
     generic_pipeline_check(ctx, [], fb, fb_oracle, "C04-fallback-position")
     # what the *generated* `match count { .. }` / if-chains render at run time: counts on and next to every bound of the declared branches
     probe.run_render_probe(ctx, rng, n_crates=ctx.budget(1, 3), flavours=("string", "view"), sig_prefix="ranges", per_key=6,
-                           opts={"range_heavy": True, "formatted_keys": False, "ordinal_key": False})
+                           opts={"range_heavy": True, "formatted_keys": False, "ordinal_key": False}, prio_share=0.2)
     ctx.assumptions += PARSER_ASSUMPTIONS
     finish_broken(ctx, f"{len(cases)} specifications, {total_counts} (spec, count) pairs, {len(decls)} declarations")
     write_evidence(ctx, RULE)
